@@ -248,16 +248,20 @@ def drf8 : Elem := { id := 31001, kind := .numeric, nbits := 8, scale := 0, ref 
 
 def seq300003 : Desc := .seq 300003 [.elem (strElem 10 1), .elem (strElem 11 2), .elem (strElem 12 3)]
 
+def nodeA : Desc :=
+  .delayedRep 103000 (.elem drf8) [.elem (strElem 1 3), .elem (strElem 2 32), .elem (strElem 3 32)]
+def nodeB : Desc :=
+  .delayedRep 101000 (.elem drf8)
+    [.seq 300004 [seq300003, .elem (strElem 13 32), .elem (strElem 14 32), .elem (strElem 15 24),
+                  .elem (strElem 16 1), .elem (strElem 17 3), .elem (strElem 18 1),
+                  .elem (strElem 19 10), .elem (strElem 20 3)]]
+def nodeD : Desc :=
+  .delayedRep 105000 (.elem drf8)
+    [seq300003, .op 205064, .delayedRep 101000 (.elem drf8) [.elem (strElem 30 6)]]
+
 /-- `103000 031001 000001 000002 000003 101000 031001 300004 105000 031001 300003 205064 101000
     031001 000030` built against the master table -/
-def ncepTemplate : List Desc :=
-  [ .delayedRep 103000 (.elem drf8) [.elem (strElem 1 3), .elem (strElem 2 32), .elem (strElem 3 32)],
-    .delayedRep 101000 (.elem drf8)
-      [.seq 300004 [seq300003, .elem (strElem 13 32), .elem (strElem 14 32), .elem (strElem 15 24),
-                    .elem (strElem 16 1), .elem (strElem 17 3), .elem (strElem 18 1),
-                    .elem (strElem 19 10), .elem (strElem 20 3)]],
-    .delayedRep 105000 (.elem drf8)
-      [seq300003, .op 205064, .delayedRep 101000 (.elem drf8) [.elem (strElem 30 6)]] ]
+def ncepTemplate : List Desc := [nodeA, nodeB, nodeD]
 
 /-! ### merge of the sources into the lookup tables -/
 
